@@ -20,14 +20,18 @@ StepClauses(e) ==
 \* shortcut surfaces agree: both succeed with the same stored state, or both fail (the dot surface
 \* documents AttributeError where the keyword surface raises XSDWrongAttribute, so classes are not compared)
 TwinClauses(e) ==
-  LET ante == [C15_same |-> e.tw15 # 0]
+  LET ante == [C15_same |-> e.tw15 # 0,
+               C16_kept |-> e.op = "setattr" /\ e.surface = "dot" /\ e.res.ok /\ e.tok.kind = "str" /\ e.stored.isstr]
   IN [ante |-> ante, holds |-> [
+   \* an accepted string is held as offered -- it is that string a parser must recover from the output (C16_wf compares
+   \* the output with what is held)
+   C16_kept |-> ante.C16_kept => e.stored.s = e.tok.s,
    C15_same |-> ante.C15_same => LET f == Trace[e.tw15] IN
                    /\ e.res.ok = f.res.ok
                    /\ (e.res.ok => (e.post.attrs = f.post.attrs /\ e.post.val = f.post.val)) ]]
 
 AllClauses == {"C04_decl", "C04_value", "C04_store", "C04_unset", "C04_required", "C04_names", "C05_complete", "C05_value",
-               "C05_sound", "C05_notext", "C10_frame", "C15_read", "C15_same", "C16_pure", "C16_wf", "C19_class", "C19_quiet"}
+               "C05_sound", "C05_notext", "C10_frame", "C15_read", "C15_same", "C16_pure", "C16_wf", "C16_kept", "C19_class", "C19_quiet"}
 
 VARIABLES i, cnt
 Init == i = 1 /\ cnt = [n \in AllClauses |-> 0]
